@@ -66,6 +66,17 @@ theorem stable_optionC : Stable OptC.parse OptC.ser := stable_of_reproduces _ _ 
 /-- 52D, 54D, 55D, 56D, 57D, 58D -/
 theorem stable_optionD : Stable OptD.parse OptD.ser := stable_of_reproduces _ _ optD_reproduces
 
+/-- 50 (no option), 50L, 50G, 50H, 50K, 59, 59A -/
+theorem stable_50 : Stable F50NoOption.parse joinNl := stable_of_reproduces _ _ f50_reproduces
+theorem stable_50L : Stable F50L.parse id := stable_of_reproduces _ _ f50L_reproduces
+theorem stable_50G : Stable F50G.parse F50G.ser := stable_of_reproduces _ _ f50G_reproduces
+theorem stable_50H : Stable F50H.parse AcctLines.ser := stable_of_reproduces _ _ f50H_reproduces
+theorem stable_50K : Stable F50K.parse AcctLines.ser := stable_of_reproduces _ _ f50K_reproduces
+theorem stable_59 : Stable F59.parse AcctLines.ser := stable_of_reproduces _ _ f59_reproduces
+theorem stable_59A : Stable F59A.parse F59A.ser := stable_of_reproduces _ _ f59A_reproduces
+/-- 50C -/
+theorem stable_bic : Stable parseBic id := stable_of_reproduces _ _ (fun s v h => parseBic_value s v h)
+
 /-! ### Message level: what the serialisers write is read back exactly
 
 `to_mt_string` writes every field as `:tag:content` followed by CRLF and drops the last CRLF (`append_field`,
